@@ -587,11 +587,320 @@ def p_chain(fields):
     return None
 
 
+# ------------------------------------------------------------------ one object used repeatedly (stale state)
+# MerkleBlock / Block / HeadersMessage objects are kept alive, queried repeatedly, edited in place through their
+# public fields and queried again; every answer is compared with a FRESH object built from the current fields and
+# with the independent references above.  Module-level functions are called in sequences (coarse caches).
+
+def _mb_state(mb):
+    return (mb.header.merkle_root, mb.total, list(mb.hashes), mb.flags)
+
+
+def _mb_eval(mb):
+    try:
+        ok = mb.is_valid()
+    except Exception:
+        return "raise", list(mb.proved_txs())
+    return ("ok" if ok else "invalid"), list(mb.proved_txs())
+
+
+def p_reuse_mb(leaves, matches, seed, nops):
+    """ONE MerkleBlock (from MerkleBlock.parse of an honest proof): is_valid()/proved_txs() asked repeatedly,
+    interleaved with in-place edits of hashes / flags / total / header.merkle_root / header and their restoration"""
+    import random
+    r = random.Random(seed)
+    total, bits, hashes, flags = ref_build(leaves, matches)
+    root = ref_root(leaves)[::-1]
+    ids = {x[::-1] for x in leaves}
+    want = [x[::-1] for x, m in zip(leaves, matches) if m]
+    mb = MerkleBlock.parse(BytesIO(_raw_merkleblock(root, total, hashes, flags)))
+    honest = _mb_state(mb)
+    for step in range(nops):
+        where = f"step {step}"
+        k = r.random()
+        if k < 0.5:
+            before = _mb_state(mb)
+            st, proved = _mb_eval(mb)
+            if _mb_state(mb) != before:
+                return f"{where}: is_valid() changed the MerkleBlock's own hashes/flags/total/root"
+            fr = _mb(before[0], before[1], before[2], before[3])
+            if (st, proved) != _mb_eval(fr):
+                return (f"{where}: is_valid()/proved_txs() of the reused MerkleBlock = {st}/{len(proved)} ids, "
+                        f"a fresh MerkleBlock with the same fields gives {_mb_eval(fr)[0]}")
+            if before == honest:
+                if st != "ok" or proved != want:
+                    return f"{where}: the honest proof no longer validates / proves the matched ids on the reused object ({st})"
+            else:
+                hash_or_root_changed = before[0] != honest[0] or \
+                    (before[1] == honest[1] and before[3] == honest[3] and before[2] != honest[2])
+                if st == "ok" and hash_or_root_changed:
+                    return f"{where}: the reused MerkleBlock validates although a hash or the root was altered"
+                if st == "ok" and before[1] == honest[1] and [p for p in proved if p not in ids]:
+                    return f"{where}: the reused MerkleBlock validates and yields ids that are not in the block"
+            if r.random() < 0.3:
+                if list(mb.proved_txs()) != proved:
+                    return f"{where}: proved_txs() changed between two calls"
+        elif k < 0.62:
+            i = r.randrange(len(mb.hashes)) if mb.hashes else None
+            if i is not None:
+                h = bytearray(mb.hashes[i])
+                h[r.randrange(len(h))] ^= 1 << r.randrange(8)
+                mb.hashes[i] = bytes(h)
+        elif k < 0.68:
+            f = bytearray(mb.flags)
+            if f:
+                f[r.randrange(len(f))] ^= 1 << r.randrange(8)
+                mb.flags = bytes(f)
+        elif k < 0.74:
+            m = bytearray(mb.header.merkle_root)
+            m[r.randrange(32)] ^= 1 << r.randrange(8)
+            if r.random() < 0.5:
+                mb.header.merkle_root = bytes(m)
+            else:
+                mb.header = Block(1, Z32, bytes(m), 0, b"\xff\xff\x00\x1d", b"\x00" * 4)
+        elif k < 0.78:
+            mb.total = max(1, min(2 * len(leaves) + 2, mb.total + r.choice([-1, 1, 2])))
+        elif k < 0.82:
+            if mb.hashes and r.random() < 0.5:
+                mb.hashes.pop(r.randrange(len(mb.hashes)))
+            else:
+                mb.hashes.insert(r.randrange(len(mb.hashes) + 1), r.choice(leaves)[::-1])
+        else:
+            mb.header.merkle_root, mb.total, mb.flags = honest[0], honest[1], honest[3]
+            if r.random() < 0.5:
+                mb.hashes[:] = honest[2]
+            else:
+                mb.hashes = list(honest[2])
+    return None
+
+
+def p_two_proofs(la, ma, lb, mb_):
+    """two MerkleTree objects and two MerkleBlock objects alive at the same time, filled alternately"""
+    pa, pb = ref_build(la, ma), ref_build(lb, mb_)
+    wa = [x[::-1] for x, m in zip(la, ma) if m]
+    wb = [x[::-1] for x, m in zip(lb, mb_) if m]
+    ta, tb = MerkleTree(pa[0]), MerkleTree(pb[0])
+    ta.populate_tree(helper.bytes_to_bit_field(pa[3]), list(pa[2]))
+    if ta.root() != ref_root(la) or ta.proved_txs != wa:
+        return "first tree wrong"
+    tb.populate_tree(helper.bytes_to_bit_field(pb[3]), list(pb[2]))
+    if tb.root() != ref_root(lb) or tb.proved_txs != wb:
+        return "a second MerkleTree populated after another one has the wrong root / proved_txs"
+    if ta.root() != ref_root(la) or ta.proved_txs != wa:
+        return "populating a second MerkleTree changed the first one"
+    t3 = MerkleTree(pa[0])
+    if t3.root() is not None or t3.proved_txs != [] or any(x is not None for lvl in t3.nodes for x in lvl):
+        return "a new MerkleTree is not empty"
+    A = MerkleBlock.parse(BytesIO(_raw_merkleblock(ref_root(la)[::-1], pa[0], pa[2], pa[3])))
+    B = MerkleBlock.parse(BytesIO(_raw_merkleblock(ref_root(lb)[::-1], pb[0], pb[2], pb[3])))
+    if A.proved_txs() != [] or B.proved_txs() != []:
+        return "proved_txs() before is_valid() is not empty"
+    for n, (x, w) in enumerate([(A, wa), (B, wb), (A, wa), (A, wa), (B, wb)]):
+        if not x.is_valid() or x.proved_txs() != w:
+            return f"call {n}: alternating is_valid() on two MerkleBlock objects: wrong result"
+        other, wo = (B, wb) if x is A else (A, wa)
+        if other.merkle_tree is not None and other.proved_txs() != wo:
+            return f"call {n}: is_valid() on one MerkleBlock changed the proved_txs() of the other"
+    return None
+
+
+def p_root_order(lists, seed):
+    """merkle_root / merkle_parent_level / Block.validate_merkle_root in sequence on different lists and on ONE list
+    object edited in place between the calls"""
+    import random
+    r = random.Random(seed)
+    work = []
+    blk = Block(1, Z32, Z32, 0, b"\xff\xff\x00\x1d", b"\x00" * 4, tx_hashes=[])
+    for n, leaves in enumerate(lists):
+        leaves = list(leaves)
+        if helper.merkle_root(list(leaves)) != ref_root(leaves):
+            return f"call {n}: merkle_root differs from the consensus Merkle root"
+        if len(leaves) > 1:
+            lvl = helper.merkle_parent_level(list(leaves))
+            if lvl != ref_levels(leaves)[1]:
+                return f"call {n}: merkle_parent_level differs from the consensus parent level"
+        # one list object, edited in place and re-used (merkle_root may append the odd-level duplicate to it)
+        k = r.randrange(4)
+        if k == 0 or not work:
+            work[:] = leaves
+        elif k == 1:
+            work[r.randrange(len(work))] = r.choice(leaves)
+        elif k == 2:
+            work.append(r.choice(leaves))
+        elif len(work) > 1:
+            work.pop(r.randrange(len(work)))
+        cur = list(work)
+        if helper.merkle_root(work) != ref_root(cur):
+            return f"call {n}: merkle_root on a re-used list object differs from the consensus root of its content"
+        if work[: len(cur)] != cur:
+            return f"call {n}: merkle_root changed an element of its argument"
+        del work[len(cur):]
+        # one Block object, tx_hashes edited in place
+        blk.tx_hashes[:] = [x[::-1] for x in cur]
+        blk.merkle_root = ref_root(cur)[::-1] if r.random() < 0.7 else ref_root(leaves)[::-1]
+        snap = list(blk.tx_hashes)
+        got = blk.validate_merkle_root()
+        if got != (blk.merkle_root == ref_root(cur)[::-1]):
+            return f"call {n}: validate_merkle_root of a reused Block is {got}"
+        if blk.tx_hashes != snap:
+            return f"call {n}: validate_merkle_root modified tx_hashes"
+    return None
+
+
+def _guard_bits_pool():
+    out = [bytes.fromhex(x) for x in ("ffff7f20", "ffff001d", "54d80118", "cb04041b", "ffff7f1f", "ffff3f20",
+                                      "ffff7f21", "00008020", "ae77031e")]
+    return [b for b in out if compact_guard(b) and core_set_compact(int.from_bytes(b, "little"))[0] != 0]
+
+
+def p_reuse_block(fields, seed, nops):
+    """ONE Block header object: serialize / hash / id / check_pow / target / difficulty / bip9.. asked repeatedly,
+    interleaved with in-place edits of every header field (the mining loop edits nonce and asks again)"""
+    import random
+    r = random.Random(seed)
+    f = list(fields)
+    blk = _blk(*f)
+    pool = _guard_bits_pool()
+    for step in range(nops):
+        where = f"step {step}"
+        k = r.random()
+        if k < 0.55:
+            v, p, m, t, b, n = f
+            raw = struct.pack("<I", v) + p[::-1] + m[::-1] + struct.pack("<I", t) + b + n
+            d = h256(raw)
+            q = r.randrange(6)
+            if q == 0 and blk.serialize() != raw:
+                return f"{where}: serialize() of the reused Block differs from its current fields"
+            if q == 1 and (blk.hash() != d[::-1] or blk.id() != d[::-1].hex()):
+                return f"{where}: hash()/id() of the reused Block is not the double-SHA256 of its current header"
+            if q == 2:
+                proof = int.from_bytes(d, "little")
+                val = core_set_compact(int.from_bytes(b, "little"))[0]
+                if proof != val and blk.check_pow() != (proof <= val):
+                    return f"{where}: check_pow() of the reused Block is {blk.check_pow()} for its current header (hash <= target: {proof <= val})"
+            if q == 3:
+                val = core_set_compact(int.from_bytes(b, "little"))[0]
+                if blk.target() != val:
+                    return f"{where}: target() of the reused Block differs from SetCompact(current bits)"
+                exact = Fraction(0xFFFF * 256 ** (0x1D - 3), val)
+                if abs(Fraction(blk.difficulty()) - exact) > exact / 10 ** 12:
+                    return f"{where}: difficulty() of the reused Block differs from max_target / current target"
+            if q == 4 and (blk.bip9(), blk.bip91(), blk.bip141()) != (v >> 29 == 1, (v >> 4) & 1 == 1, (v >> 1) & 1 == 1):
+                return f"{where}: bip9/bip91/bip141 of the reused Block differ from its current version"
+            if q == 5:
+                fr = _blk(*f)
+                if (blk.serialize(), blk.hash(), blk.check_pow(), blk.target()) != (fr.serialize(), fr.hash(), fr.check_pow(), fr.target()):
+                    return f"{where}: the reused Block answers differently from a fresh Block with the same fields"
+        else:
+            e = r.randrange(6)
+            if e == 0:
+                f[0] = r.choice([1, 2, 0x20000000, 0x20000012, r.getrandbits(32)])
+                blk.version = f[0]
+            elif e == 1:
+                f[1] = bytes(r.getrandbits(8) for _ in range(32))
+                blk.prev_block = f[1]
+            elif e == 2:
+                f[2] = bytes(r.getrandbits(8) for _ in range(32))
+                blk.merkle_root = f[2]
+            elif e == 3:
+                f[3] = r.getrandbits(32)
+                blk.timestamp = f[3]
+            elif e == 4:
+                f[4] = r.choice(pool)
+                blk.bits = f[4]
+            else:
+                f[5] = bytes(r.getrandbits(8) for _ in range(4))
+                blk.nonce = f[5]
+    return None
+
+
+def p_reuse_headers(chain, seed, nops):
+    """ONE HeadersMessage: is_valid() asked repeatedly while its Block objects are edited in place (nonce ground again,
+    link broken and repaired, bits raised), headers dropped / swapped / re-appended"""
+    import random
+    r = random.Random(seed)
+    msg = network.HeadersMessage([_blk(*f) for f in chain])
+    easy, hard = bytes.fromhex("ffff7f20"), bytes.fromhex("ffff001d")
+
+    def fields():
+        return [_hdr(h) for h in msg.headers]
+
+    def relink(i):
+        """make header i link to its predecessor and pass PoW (reference arithmetic only)"""
+        h = msg.headers[i]
+        if i > 0:
+            q = msg.headers[i - 1]
+            h.prev_block = h256(struct.pack("<I", q.version) + q.prev_block[::-1] + q.merkle_root[::-1] +
+                                struct.pack("<I", q.timestamp) + q.bits + q.nonce)[::-1]
+        h.bits = easy
+        for _ in range(64):
+            if _ref_chain_valid([_hdr(h)]):
+                break
+            h.nonce = bytes(r.getrandbits(8) for _ in range(4))
+
+    for step in range(nops):
+        k = r.random()
+        if k < 0.45 or not msg.headers:
+            cur = fields()
+            got, want = msg.is_valid(), _ref_chain_valid(cur)
+            if got != want:
+                return (f"step {step}: is_valid() of the reused HeadersMessage = {got}; its current headers: every header "
+                        f"passes PoW and links to its predecessor = {want}")
+            if not msg.headers:
+                msg.headers.append(_blk(*chain[0]))
+        else:
+            i = r.randrange(len(msg.headers))
+            e = r.randrange(7)
+            if e == 0:
+                msg.headers[i].nonce = bytes(r.getrandbits(8) for _ in range(4))
+            elif e == 1:
+                p = bytearray(msg.headers[i].prev_block)
+                p[r.randrange(32)] ^= 1 << r.randrange(8)
+                msg.headers[i].prev_block = bytes(p)
+            elif e == 2:
+                msg.headers[i].bits = hard
+            elif e == 3:
+                msg.headers[i].merkle_root = bytes(r.getrandbits(8) for _ in range(32))
+            elif e == 4:
+                for j in range(len(msg.headers)):
+                    relink(j)
+            elif e == 5 and len(msg.headers) > 1:
+                msg.headers.pop(i)
+            else:
+                msg.headers.append(_blk(*r.choice(chain)))
+                relink(len(msg.headers) - 1)
+    return None
+
+
+def p_compact_order(seq):
+    """bits_to_target / target_to_bits / calculate_new_bits / MerkleTree sizing called in the given order (coarse caches):
+    arguments stay inside the domain on which the single-call predicates hold (see K-C17-compact)"""
+    for n, item in enumerate(seq):
+        kind = item[0]
+        if kind == 0:
+            d = p_compact_ref(item[1])
+        elif kind == 1:
+            d = p_compact_rt(item[1])
+        elif kind == 2:
+            d = p_retarget_ref(item[1], item[2])
+        else:
+            d = p_depth_formula(item[1])
+            if d is None and item[1] <= 3000:
+                t = MerkleTree(item[1])
+                if [len(x) for x in t.nodes] != [-(-item[1] // 2 ** (t.max_depth - k)) for k in range(t.max_depth + 1)]:
+                    d = f"MerkleTree({item[1]}) level sizes"
+        if d:
+            return f"call {n}: " + d
+    return None
+
+
 PROPS = {"root_ref": p_root_ref, "proof_complete": p_proof_complete, "proof_complete_spec": p_proof_complete_spec,
          "tamper": p_tamper, "total_forgery": p_total_forgery, "hashlen_split": p_hashlen_split,
          "bitfield_rt": p_bitfield_rt,
          "depth_formula": p_depth_formula, "compact_ref": p_compact_ref, "compact_rt": p_compact_rt,
-         "retarget_ref": p_retarget_ref, "pow_ref": p_pow_ref, "chain": p_chain}
+         "retarget_ref": p_retarget_ref, "pow_ref": p_pow_ref, "chain": p_chain,
+         "reuse_mb": p_reuse_mb, "two_proofs": p_two_proofs, "root_order": p_root_order,
+         "reuse_block": p_reuse_block, "reuse_headers": p_reuse_headers, "compact_order": p_compact_order}
 
 
 def classify(v):
@@ -917,3 +1226,58 @@ def generate(ctx):
             ctx.label("chain/honest")
         yield ("corr", "headers_is_valid", [chain])
         yield ("prop", "chain", [chain])
+    # ---------------- one object used repeatedly: stale memoised state, coarse module-level caches
+    for n in [1, 2, 3, 4, 5, 7, 8, 11, 16, 33] + [r.randrange(2, 120) for _ in range(ctx.n(4, 60))]:
+        leaves = rleaves(ctx, n, dup=(n % 5 == 3))
+        m = [r.random() < 0.4 for _ in range(n)]
+        if not any(m):
+            m[r.randrange(n)] = True
+        ctx.label("reuse/merkleblock")
+        yield ("prop", "reuse_mb", [leaves, m, r.getrandbits(30), ctx.n(40, 80)])
+        lb = rleaves(ctx, r.choice([1, 2, 3, 5, 6, 9, 12]))
+        ctx.label("reuse/two-proofs")
+        yield ("prop", "two_proofs", [leaves, m, lb, [r.random() < 0.5 for _ in lb]])
+    for _ in range(ctx.n(6, 60)):
+        n0 = r.randrange(1, 12)
+        base = rleaves(ctx, n0)
+        lists = []
+        for _j in range(10):
+            k = r.randrange(4)
+            if k == 0:
+                lists.append(list(base))
+            elif k == 1:          # same length, same first element
+                lists.append([base[0]] + rleaves(ctx, n0 - 1))
+            elif k == 2:          # a prefix / an extension
+                lists.append(base[: r.randrange(1, n0 + 1)] + rleaves(ctx, r.randrange(0, 3)))
+            else:
+                lists.append(rleaves(ctx, r.randrange(1, 20)))
+        ctx.label("reuse/merkle-root-order")
+        yield ("prop", "root_order", [lists, r.getrandbits(30)])
+    for _ in range(ctx.n(8, 80)):
+        ctx.label("reuse/block-header")
+        yield ("prop", "reuse_block", [rheader_fields(ctx, r.choice(_guard_bits_pool())), r.getrandbits(30), ctx.n(60, 120)])
+    for _ in range(ctx.n(6, 60)):
+        k = r.choice([1, 2, 3, 4])
+        chain, prev = [], ctx.rbytes(32)
+        for _j in range(k):
+            f = mine(ctx, [r.getrandbits(32), prev, ctx.rbytes(32), r.getrandbits(32), easy, ctx.rbytes(4)])
+            chain.append(f)
+            prev = _blk(*f).hash()
+        ctx.label("reuse/headers-message")
+        yield ("prop", "reuse_headers", [chain, r.getrandbits(30), ctx.n(40, 80)])
+    for _ in range(ctx.n(6, 60)):
+        seq = []
+        for _j in range(30):
+            k = r.randrange(4)
+            gb = struct.pack("<I", r.choice([0x008000, 0x7fffff, 0x00ffff, 0x123456, r.randrange(0x8000, 0x800000)]))[:3] + \
+                bytes([r.randrange(4, 29)])
+            if k == 0:
+                seq.append([0, gb])
+            elif k == 1:
+                seq.append([1, r.choice([0x8000, 2 ** 255, POW_LIMIT, r.getrandbits(r.randrange(16, 257)) | 0x8000])])
+            elif k == 2:
+                seq.append([2, gb, r.choice([TW, TW // 4, TW * 4, TW - 1, r.randrange(TW // 8, TW * 5)])])
+            else:
+                seq.append([3, r.choice([1, 2, 3, 4, 5, 8, 9, 1023, 1024, 1025, r.randrange(1, 3000)])])
+        ctx.label("reuse/compact-order")
+        yield ("prop", "compact_order", [seq])
